@@ -384,9 +384,10 @@ def plans(tier):
     if tier == 'quick':
         return {f: [('quick', 4, 0)] for f in FAMILIES}
     res = {f: [('full', 5, 0)] for f in FAMILIES}
-    # the mixin family is the widest one: the full menus to 4 steps, then the reduced menus one step deeper (the programs
+    # the mixin and loops families are the widest ones: the full menus to 4 steps, then the reduced menus one step deeper (the programs
     # of <= 4 steps of the reduced menus are among those of the full menus and are not judged twice)
     res['mixin'] = [('full', 4, 0), ('quick', 5, 5)]
+    res['loops'] = [('full', 4, 0), ('quick', 5, 5)]
     return res
 
 
@@ -1195,6 +1196,9 @@ def successors(family, view, steps, state, ref):
             if cid in defined:
                 allowed = fam.get('configs_for', {}).get(cid)
                 for cfgid in cfgids:
+                    out = fam['configs'][cfgid].get('+output')
+                    if out and out['cls'] not in defined:
+                        continue      # the class of the module created together with the instance must exist
                     if allowed is None or cfgid in allowed:
                         yield ['new', cid, cfgid]
     for k, (cid, cfgid, names) in enumerate(insts):
